@@ -118,6 +118,7 @@ def run_case(case):
     res = Res()
     log = []
     state = {'world': None}
+    reads = []              # reads of world.processors inside callbacks
 
     def make_class(i, spec, base):
         ns = {}
@@ -140,6 +141,9 @@ def run_case(case):
                 log.append(('add', self.uid, args,
                             state['world'].dispatch_enabled,
                             self.world is state['world']))
+                # a callback may look at the processors (not judged here,
+                # mid-change; what is listed afterwards is)
+                reads.append(len(state['world'].processors))
                 if getattr(self, 'fail_on_add', False):
                     self.fail_on_add = False
                     state['fault'] = HarnessError('on_add failed')
@@ -149,6 +153,7 @@ def run_case(case):
             def on_remove(self, *args):
                 log.append(('remove', self.uid, args,
                             state['world'].dispatch_enabled, None))
+                reads.append(len(state['world'].processors))
                 todo = getattr(self, 'readd', None)
                 if todo is not None:
                     self.readd = None
@@ -533,6 +538,7 @@ def run_case(case):
         if not ok:
             break
 
+    res.stats['processors_reads_in_callbacks'] += len(reads)
     res.sample = {'final_order': [(x[2].uid, x[0]) for x in order],
                   'frames': res.stats['process_calls_checked']}
     return res
